@@ -35,6 +35,17 @@ OPT = (1,)
 MCS = (2,)
 
 
+def galg(depths, budget=120.0):
+    """Breadth-first search over single-thread histories of guard operations (harness/locks.cpp --galg): depths = {lock class: depth}."""
+    return [dict(h=L(lk), families=[], bound=0, budget=budget, job_budget=60.0, extra=["--galg", str(d)],
+                 label="guard-algebra histories, depth %d (breadth-first, keyed by implementation state)" % d)
+            for lk, d in depths.items()]
+
+
+GQ = {0: 8, 1: 5, 2: 6}     # quick depths (PessimisticLock: the search closes at depth 8)
+GT = {0: 10, 1: 7, 2: 9}    # thorough depths
+
+
 def lock_spec(prop, tier):
     q = tier == "quick"
     T = dict(budget=900.0, job_budget=600.0)  # thorough budgets
@@ -54,8 +65,8 @@ def lock_spec(prop, tier):
         if q:
             return (lr(merge(fam("p1", "p2x1", "conv2"), fam("prep2", locks=OPT)), -1)
                     + lr(fam("p2x2", "p3x1"), 2)
-                    + lr(fam("p1"), 1, dev=1))
-        return (lr(merge(fam("p1", "p2x1", "conv2", "p2x2", "twolocks"), fam("prep2", "opt2", locks=OPT)), -1, **T)
+                    + lr(fam("p1"), 1, dev=1) + galg({0: 6, 1: 4, 2: 5}))
+        return (galg(GQ, 600) + lr(merge(fam("p1", "p2x1", "conv2", "p2x2", "twolocks"), fam("prep2", "opt2", locks=OPT)), -1, **T)
                 + lr(merge(fam("p3x1", "conv3", "p2x3"), fam("warm2", locks=MCS)), 3, **T)
                 + lr(fam("p4x1", locks=MCS), 2, **T)
                 + lr(fam("p2x1", "p3x1"), 2, dev=1, **T)
@@ -63,8 +74,8 @@ def lock_spec(prop, tier):
     if prop == "C07":
         if q:
             return (lr(merge(fam("guards1", "guards2", "p2x1"), fam("opt1", "prep2", locks=OPT)), -1)
-                    + lr(fam("p2x2"), 2))
-        return (lr(merge(fam("guards1", "guards2", "p2x1", "p2x2", "twolocks"), fam("opt1", "opt2", "prep2", locks=OPT)), -1, **T)
+                    + lr(fam("p2x2"), 2) + galg(GQ))
+        return (galg(GT, 900) + lr(merge(fam("guards1", "guards2", "p2x1", "p2x2", "twolocks"), fam("opt1", "opt2", "prep2", locks=OPT)), -1, **T)
                 + lr(merge(fam("guards3"), fam("prep3", locks=OPT)), 3, **T))
     if prop == "C08":
         if q:
@@ -89,24 +100,24 @@ def lock_spec(prop, tier):
     if prop == "C12":
         if q:
             return (lr(fam("p1", "p2x1", "conv2", "guards2", locks=MCS), -1)
-                    + lr(fam("p2x2", "p3x1", "warm2", "twolocks", locks=MCS), 2))
-        return (lr(fam("p1", "p2x1", "conv2", "guards2", "p2x2", "twolocks", locks=MCS), -1, **T)
+                    + lr(fam("p2x2", "p3x1", "warm2", "twolocks", locks=MCS), 2) + galg({2: GQ[2]}))
+        return (galg({2: GT[2]}, 900) + lr(fam("p1", "p2x1", "conv2", "guards2", "p2x2", "twolocks", locks=MCS), -1, **T)
                 + lr(fam("p3x1", "warm2", "guards3", "conv3", "p3x2", locks=MCS), 3, **T)
                 + lr(fam("p4x1", locks=MCS), 2, **T)
                 + lr(fam("p2x1", "p3x1", locks=MCS), 2, dev=1, **T))
     if prop == "C03":
         if q:
             return (lr(fam("opt1", "opt2", "republish", locks=OPT), -1) + lr(fam("opt2x2", locks=OPT), 2)
-                    + lr(fam("opt1", locks=OPT), 2, dev=1) + lr(fam("opt2", locks=OPT), 2, dev=1))
-        return (lr(fam("opt1", "opt2", "republish", "opt2x2", locks=OPT), -1, **T)
+                    + lr(fam("opt1", locks=OPT), 2, dev=1) + lr(fam("opt2", locks=OPT), 2, dev=1) + galg({1: GQ[1]}))
+        return (galg({1: GT[1]}, 900) + lr(fam("opt1", "opt2", "republish", "opt2x2", locks=OPT), -1, **T)
                 + lr(fam("opt3", locks=OPT), 4, **T)
                 + lr(fam("opt2", "republish", "opt2x2", locks=OPT), -1, retry=1, **T)
                 + lr(fam("opt2", "republish", locks=OPT), 3, dev=1, **T)
                 + lr(fam("opt2", "republish", locks=OPT), -1, retry=2, **T))
     if prop == "C09":
         if q:
-            return lr(fam("opt1", "ver2", locks=OPT), -1)
-        return (lr(fam("opt1", "ver2", "opt2", locks=OPT), -1, **T)
+            return lr(fam("opt1", "ver2", locks=OPT), -1) + galg({1: GQ[1]})
+        return (galg({1: GT[1]}, 900) + lr(fam("opt1", "ver2", "opt2", locks=OPT), -1, **T)
                 + lr(fam("ver3", locks=OPT), 4, **T)
                 + lr(fam("ver2", locks=OPT), -1, retry=1, **T)
                 + lr(fam("ver2", locks=OPT), 3, dev=1, **T))
@@ -114,8 +125,8 @@ def lock_spec(prop, tier):
         if q:
             return (lr(fam("opt1", "prep2", locks=OPT), -1)
                     + lr(fam("prep2", locks=OPT), -1, retry=1)
-                    + lr(fam("opt1", locks=OPT), 2, dev=1))
-        return (lr(fam("opt1", "prep2", locks=OPT), -1, **T)
+                    + lr(fam("opt1", locks=OPT), 2, dev=1) + galg({1: 4}))
+        return (galg({1: 6}, 900) + lr(fam("opt1", "prep2", locks=OPT), -1, **T)
                 + lr(fam("prep3", locks=OPT), 4, **T)
                 + lr(fam("prep4", locks=OPT), 3, **T)
                 + lr(fam("prep2", locks=OPT), -1, retry=1, **T)
